@@ -21,6 +21,26 @@ import H3.Model.E2E
 namespace H3.Drv.C01
 open H3.Drv
 
+/-- The target as the receiving application sees it (`http::Uri`): an absolute-form target whose path is
+    empty (`https://a.b`, `https://a.b?q`) has path `/` (RFC 9110 4.2.3: an empty path is equivalent to `/`;
+    RFC 9114 4.3.1: `:path` must not be empty for http(s) URIs). Both halves print this form. -/
+def canonTarget (u : List Nat) : List Nat :=
+  let rec find : List Nat → Nat → Option Nat
+    | [], _ => none
+    | b :: r, i => if (b :: r).take 3 == [58, 47, 47] then some i else find r (i + 1)
+  match find u 0 with
+  | some i =>
+    let rest := u.drop (i + 3)
+    let auth := rest.takeWhile (fun b => b != 47 && b != 63)
+    let pq := rest.drop auth.length
+    if pq.isEmpty || pq.head? == some 63 then u.take (i + 3) ++ auth ++ [47] ++ pq else u
+  | none => u
+
+def canonTargetHex (h : String) : String :=
+  match H3.Drv.parseHex h with
+  | some u => H3.Drv.toHex (canonTarget u)
+  | none => h
+
 structure Msg where
   head : String := ""          -- request: `METHOD:<uri hex>:<proto>`; response: `<status>`
   headers : List (String × String) := []
@@ -89,7 +109,7 @@ def stepOp (st : St) (op : String) : St :=
         | [m, p] => (m, p)
         | _ => (method, "-")
       let sid := st.nextSid
-      { st with reqs := upd st.reqs sid (fun _ => { head := s!"{m}:{uri}:{proto}", headers := parseHdrs hdrs, sentHead := true }),
+      { st with reqs := upd st.reqs sid (fun _ => { head := s!"{m}:{canonTargetHex uri}:{proto}", headers := parseHdrs hdrs, sentHead := true }),
                 nextSid := sid + 4 }
     | _ => st
   | [side, task, cmd] =>
@@ -177,7 +197,7 @@ def renderUri (u : Uri) : String :=
   let s := match u.scheme with
     | some s => s ++ [58, 47, 47]
     | none => []
-  toHex (s ++ u.authority.getD [] ++ u.path.getD [])
+  toHex (canonTarget (s ++ u.authority.getD [] ++ u.path.getD []))
 
 def renderDelivered (pre task : String) (headCmd : String) (d : Delivered) : String :=
   let head := match d.head with
